@@ -253,6 +253,11 @@ pub struct RunCfg {
     /// typed fields above are sent.
     #[serde(default)]
     pub raw_opts: Option<std::collections::BTreeMap<String, i64>>,
+    /// Per mille chance that a newly issued bookkeeping write (mark_failed /
+    /// mark_succeeded) is held back by the node for a long while ("old
+    /// lifecycle still finishing its bookkeeping").
+    #[serde(default)]
+    pub f_stall: u32,
     /// E2: number and states of parts that exist before the component is called
     /// (0 pending, 1 failed, 2 complete).
     #[serde(default)]
@@ -333,6 +338,7 @@ pub fn base_cfg(rng: &mut Rng, profile: &str) -> RunCfg {
         recipient_coop: 800,
         freeze: false,
         mode: "process".into(),
+        f_stall: 0,
         raw_opts: None,
         pre_parts: Vec::new(),
     }
